@@ -132,11 +132,25 @@ def _worker(prop_name, tier, seed, shard, attempt, n, out_path, cur_path, done_p
                 state["gen_count"] += 1
             else:
                 rnd = draw(st.randoms(use_true_random=False))
-            return prop.generate(rnd, tier)
+            # generators call the harness' own reference algorithms (recognisers, match-expression parses), which have
+            # rare slow corners: a generator that needs more than GEN_SOFT seconds yields a skipped case instead of
+            # stalling the shard until the hard kill
+            try:
+                with watchdog(getattr(prop, "GEN_SOFT", 30)):
+                    try:
+                        return prop.generate(rnd, tier)
+                    finally:
+                        signal.setitimer(signal.ITIMER_REAL, 0)
+            except SoftTimeout:
+                return {"__skip__": "generator_timeout"}
 
         def body(case):
             if deadline and time.time() > deadline:
                 raise _BudgetReached()
+            if isinstance(case, dict) and case.get("__skip__"):
+                if shrink_sig is None:
+                    out.write(json.dumps({"k": None, "nt": False, "l": [case["__skip__"]], "inc": case["__skip__"], "kn": [], "v": []}) + "\n")
+                return
             with open(cur_path, "w") as cf:
                 json.dump(case, cf, default=str)
             res = guarded_judge(prop, case)
